@@ -891,7 +891,7 @@ namespace glm {
 	template<>
 	GLM_FUNC_QUALIFIER GLM_CONSTEXPR vec<3, float, packed_highp>::vec(const vec<3, float, aligned_highp>& v)
 	{
-		_mm_store_sd(reinterpret_cast<double*>(this), _mm_castps_pd(v.data));
+		_mm_storel_pi(reinterpret_cast<__m64*>(this), v.data); // a packed vec3 is only 4 byte aligned: no 8 byte aligned double store
 		__m128 mz = _mm_shuffle_ps(v.data, v.data, _MM_SHUFFLE(2, 2, 2, 2));
 		_mm_store_ss(reinterpret_cast<float*>(this)+2, mz);
 	}
@@ -945,7 +945,7 @@ namespace glm {
 	template<>
 	GLM_FUNC_QUALIFIER GLM_CONSTEXPR vec<3, int, packed_highp>::vec(const vec<3, int, aligned_highp>& v)
 	{
-		_mm_store_sd(reinterpret_cast<double*>(this), _mm_castsi128_pd(v.data));
+		_mm_storel_epi64(reinterpret_cast<__m128i*>(this), v.data); // a packed vec3 is only 4 byte aligned: no 8 byte aligned double store
 		__m128 mz = _mm_shuffle_ps(_mm_castsi128_ps(v.data), _mm_castsi128_ps(v.data), _MM_SHUFFLE(2, 2, 2, 2));
 		_mm_store_ss(reinterpret_cast<float*>(this)+2, mz);
 	}
@@ -972,7 +972,7 @@ namespace glm {
 	template<>
 	GLM_FUNC_QUALIFIER GLM_CONSTEXPR vec<3, unsigned int, packed_highp>::vec(const vec<3, unsigned int, aligned_highp>& v)
 	{
-		_mm_store_sd(reinterpret_cast<double*>(this), _mm_castsi128_pd(v.data));
+		_mm_storel_epi64(reinterpret_cast<__m128i*>(this), v.data); // a packed vec3 is only 4 byte aligned: no 8 byte aligned double store
 		__m128 mz = _mm_shuffle_ps(_mm_castsi128_ps(v.data), _mm_castsi128_ps(v.data), _MM_SHUFFLE(2, 2, 2, 2));
 		_mm_store_ss(reinterpret_cast<float*>(this) + 2, mz);
 	}
